@@ -1685,6 +1685,25 @@ class Interp:
             return self.binary(base, args[0], args[1], ln)
         if base in ("vsplit", "split", "array_split") and len(args) == 2 and isinstance(args[0], Vec) and args[1] == 2 and kwargs.get("axis", 0) == 0:
             return [Row2D(args[0].x, "np.%s" % base), Row2D(args[0].y, "np.%s" % base)]
+        if base == "shape" and len(args) == 1 and "shape" not in self.np_hooks and (self.dom.is_value(args[0]) or isinstance(args[0], Vec) or _is_conc(args[0])):
+            return ("shape-of", args[0])
+        if base == "resize" and len(args) == 2 and isinstance(args[1], tuple) and args[1] and args[1][0] == "shape-of":
+            q, dref = args[0], args[1][1]
+            if isinstance(q, Vec) or isinstance(dref, Vec):
+                e = AnalysisError("%s:%d np.resize to the shape of a vector field" % (func.qualname, ln))
+                e.violation = ("VEC-LAYOUT", func.qualname, "`%s` (line %d): np.resize FLATTENS its argument and repeats the values cyclically until the new shape is filled -- it does not broadcast: a velocity given in the compact column form [[u], [v]] resized to (2, nfaces) becomes u, v, u, v, ... along the first row (np.broadcast_to / `q + 0*d` broadcast)" % (unparse(node)[:50], ln),
+                               "resize-not-broadcast", {"C03", "C16", "C15", "C13", "C01"})
+                raise e
+            return q            # a scalar (or an array of that very shape) resized to the shape of a scalar field: the same values
+        if base == "put" and len(args) == 3 and hasattr(args[0], "_fd_setitem"):
+            # np.put(a, ind, v) stores into the FLATTENED array: a.flat[ind] = v
+            if getattr(args[0], "vec", False):
+                e = AnalysisError("%s:%d np.put into a (2, n) vector array" % (func.qualname, ln))
+                e.violation = ("VEC-LAYOUT", func.qualname, "`%s` (line %d): np.put indexes the FLATTENED array -- for a (2, n) vector array the face indices address the first row (the x components) only, and the values beyond the number of indices are silently dropped: the y components are never written (they keep what the array held before)" % (unparse(node)[:50], ln),
+                               "put-flat-vector", {"C16", "C15", "C01", "C03", "C11", "C13", "C14"})
+                raise e
+            args[0]._fd_setitem(args[1], args[2], self)
+            return None
         if base in ("place", "put", "putmask") and len(args) == 3:
             vals = args[2]
             if base in ("place", "putmask") and _is_conc(vals) and self.is_mask(args[1]):
